@@ -356,6 +356,7 @@ def run_driver(ctx, focus):
                         kw["max_iter"] = settings["max_iter"] + t.randint(1, 5, "extra_budget")
                 lib = fac.create(lib_name)
                 keys_before = {tuple(float(v) for v in x.wrapped_array) for x in problem.database.keys()}
+                t_start = clock.now
                 try:
                     result = lib.execute(problem, **kw)
                 except Inconclusive:
@@ -373,6 +374,10 @@ def run_driver(ctx, focus):
                     allowed = max(0, allowed - counter_before)
                 ctx.event("exec", e, canon(None if result is None else (result.x_opt, result.f_opt, result.is_feasible, str(result.message))),
                           canon(exc), len(problem.database), problem.evaluation_counter.current)
+                if result is not None and "Maximum time reached" in str(result.message) and "max_time" in kw:
+                    # a run reported as stopped by the time limit must have seen that much simulated time
+                    if clock.now - t_start <= kw["max_time"] * (1 - 1e-9):
+                        ctx.violate("C03.time_limit_spurious", sig, f"execution {e} reports 'Maximum time reached' after {clock.now - t_start} simulated seconds with max_time={kw['max_time']}; cfg={cfg}")
                 check_execution(ctx, cfg, sig, e, problem, tracked, result, exc, n_new, allowed, pts_before, kw, plan, focus, lib, keys_before)
     ctx.sim_time += clock.covered
     for clause, s, msg in c04_runtime[:1]:
